@@ -292,9 +292,7 @@ state than 3 is the violation -/
 def guardMon (reset g1 g2 guarded : Ev → Bool) : Mon := fun s e =>
   if reset e then some 0
   else if guarded e then (if s == 3 then some s else none)
-  else if g1 e then some (s ||| 1)
-  else if g2 e then some (s ||| 2)
-  else some s
+  else some ((if g1 e then s ||| 1 else s) ||| (if g2 e then 2 else 0))     -- (one event may be both guards)
 
 def onlyUnderBothGuards (reset g1 g2 guarded : Ev → Bool) (sk : Sk) : Bool :=
   (scan (guardMon reset g1 g2 guarded) 4 sk [0]).isSome
